@@ -39,7 +39,8 @@ def writes (subs : SubEnv) : Nat → ILEffect → List Res
         if f.startsWith "hex_" then
           match lookupS (f.drop 4).toString subs with
           | some (_, body) => writes subs fuel body
-          | none => if f == "hex_set_usr_field" then usrWrites args else []
+          | none => if f == "hex_set_usr_field" then usrWrites args
+                    else if f == "hex_get_usr_field" then [.loc "ret_val"] else []
         else if f == "HEX_STORE_SLOT_CANCELLED" then [.loc "$slot_cancelled"]
         else if f == "HEX_GET_NPC" then [.loc "ret_val"]
         else []
@@ -67,6 +68,7 @@ def storesMem (subs : SubEnv) (fuel : Nat) (e : ILEffect) : Bool :=
 def calleeDisjoint (subs : SubEnv) (fuel : Nat) (name : String) (L : List String) : Bool :=
   match lookupS name subs with
   | some (_, body) => L.all (fun n => !(writtenLocals subs fuel body).contains n)
-  | none => true
+  -- no compiled body: the specification-level routines; `get_usr_field` sets `ret_val`, `set_usr_field` no local
+  | none => !(name == "get_usr_field" && L.contains "ret_val")
 
 end Rzil
